@@ -80,6 +80,7 @@ func loadAll(patterns []string) *Engine {
 	db.LoadRepoSpecs(e)
 	db.LoadExternDir(filepath.Join(verifDir, "extern"))
 	e.specs = db
+	e.tm.immutableFields = db.ImmutableFields
 	return e
 }
 
